@@ -5,7 +5,7 @@ TIER=$1; shift
 ROOT="$(cd "$(dirname "${BASH_SOURCE[0]}")/.." && pwd)"
 cd "$ROOT"; . ./env.sh
 B=$(mktemp -d /tmp/sweepbin-XXXXXX)
-( cd harness && go build -tags verif -o $B/check ./cmd/check && go build -race -tags verif -o $B/check-race ./cmd/check ) && ( cd /repo && go build -tags verif -o $B/bazel-remote . ) || exit 9
+( cd harness && go build -tags verif -o $B/check ./cmd/check && go build -race -tags verif -o $B/check-race ./cmd/check ) && ( cd /repo && go build -tags verif -o $B/bazel-remote . && go build -race -tags verif -o $B/bazel-remote-race . ) || exit 9
 for seed in "$@"; do for c in ${CHECKS:-$(cat CLAIMED)}; do
   R=$(mktemp -d /tmp/sweep-XXXXXX); cp known_findings.json $R/
   s=$(date +%s); out=$(VERIF_ROOT=$R VERIF_BIN=$B VERIF_SEED=$seed timeout 7200 $B/check $c $TIER 2>&1); rc=$?; e=$(date +%s)
